@@ -25,6 +25,27 @@ DEV = "src/devices.rs"
 WRAP = "src/devices/wrappers.rs"
 DATUM = "src/datum.rs"
 
+# ---- C02
+mut("m02a_sum_fold_short", "C02", MATH, "            for i in 0..outputs_filled - 1 {\n                value += other_outputs[i].assume_init();", "            for i in 0..outputs_filled.saturating_sub(2) {\n                value += other_outputs[i].assume_init();")
+mut("m02b_sum2_swallows_err", "C02", MATH, "        let y = self.addend2.borrow().get()?;\n        let y = match y {\n            Some(y) => y,\n            None => return Ok(Some(x)),\n        };\n        Ok(Some(x + y))", "        let y = match self.addend2.borrow().get() { Ok(y) => y, Err(_) => return Ok(Some(x)) };\n        let y = match y {\n            Some(y) => y,\n            None => return Ok(Some(x)),\n        };\n        Ok(Some(x + y))")
+mut("m02c_diff_returns_subtrahend", "C02", MATH, "        match minuend_output {\n            Some(_) => {}\n            None => {\n                return Ok(None);\n            }\n        }", "        match minuend_output {\n            Some(_) => {}\n            None => {\n                return Ok(subtrahend_output);\n            }\n        }")
+mut("m02d_if_absent_true", "C02", FLOW, "            Some(output) => output.value,\n            None => false,", "            Some(output) => output.value,\n            None => true,")
+mut("m02e_and_none_false", "C02", LOGIC, "                if !datum.value {\n                    and_state = AndState::DefinitelyFalse;\n                }\n            }\n            None => {\n                and_state.none();\n            }\n        }\n        let time", "                if !datum.value && !matches!(and_state, AndState::MaybeTrue) {\n                    and_state = AndState::DefinitelyFalse;\n                }\n            }\n            None => {\n                and_state.none();\n            }\n        }\n        let time")
+mut("m02f_expirer_ge", "C02", STREAMS, "if time - output.time > self.max_time_delta {", "if time - output.time >= self.max_time_delta {")
+mut("m02g_latest_propagates_err", "C02", STREAMS, "                _ => {}\n            }\n        }\n        Ok(output)", "                Err(e) => return Err(e),\n                _ => {}\n            }\n        }\n        Ok(output)")
+mut("m02h_prod_skips_last", "C02", MATH, "            for i in 0..outputs_filled - 1 {\n                value *= other_outputs[i].assume_init();", "            for i in 0..(outputs_filled - 1).min(3) {\n                value *= other_outputs[i].assume_init();", note="needs >= 5 present factors")
+mut("m02i_n2v_uses_input_time", "C02", "src/streams/converters.rs", "                return Ok(Some(Datum::new(\n                    self.time_getter.borrow().get()?,", "                return Ok(Some(Datum::new(\n                    { let _ = self.time_getter.borrow().get()?; Time(0) },")
+mut("m02j_or_err_order", "C02", LOGIC, "        let gotten1 = self.input1.borrow().get()?;\n        let gotten2 = self.input2.borrow().get()?;\n        let mut time = None;\n        let mut or_state", "        let gotten2 = self.input2.borrow().get()?;\n        let gotten1 = self.input1.borrow().get()?;\n        let mut time = None;\n        let mut or_state", note="needs two different errors at once")
+# ---- C03
+mut("m03a_diff_older_time", "C03", MATH, "        let time = if minuend_output.time > subtrahend_output.time {", "        let time = if minuend_output.time < subtrahend_output.time {")
+mut("m03b_datum_sub_other_time", "C03", DATUM, "    fn sub(self, other: Self) -> Datum<O> {\n        let output_value = self.value - other.value;\n        let output_time = if self.time >= other.time {\n            self.time", "    fn sub(self, other: Self) -> Datum<O> {\n        let output_value = self.value - other.value;\n        let output_time = if self.time >= other.time {\n            other.time")
+mut("m03c_terminal_cmd_older", "C03", LIB, "if gotten_command.time > command_some.time {", "if gotten_command.time < command_some.time {")
+mut("m03d_axle_seed_zero", "C03", DEV, "let mut datum = Datum::new(Time(i64::MIN), State::default());", "let mut datum = Datum::new(Time(0), State::default());", note="wrong only for negative times")
+mut("m03e_replace_ge", "C03", DATUM, "        if maybe_replace_with.time > self.time {\n            *self = maybe_replace_with;", "        if maybe_replace_with.time >= self.time {\n            *self = maybe_replace_with;")
+mut("m03f_latest_picks_older", "C03", LIB, "    if dat1.time >= dat2.time {\n        dat1", "    if dat1.time < dat2.time {\n        dat1")
+mut("m03g_and_time_first", "C03", LOGIC, "                        if datum.time > existing {\n                            time = Some(datum.time);\n                        }\n                    }\n                    None => time = Some(datum.time),\n                }\n                if !datum.value {", "                        if datum.time > existing && false {\n                            time = Some(datum.time);\n                        }\n                    }\n                    None => time = Some(datum.time),\n                }\n                if !datum.value {")
+mut("m03h_cmd_div_assign_time", "C03", DATUM, "impl DivAssign<Datum<f32>> for Datum<Command> {\n    fn div_assign(&mut self, other: Datum<f32>) {\n        self.value /= other.value;\n        self.time = if self.time >= other.time {", "impl DivAssign<Datum<f32>> for Datum<Command> {\n    fn div_assign(&mut self, other: Datum<f32>) {\n        self.value /= other.value;\n        self.time = if self.time <= other.time {")
+mut("m03i_mulassign_scalar_restamps", "C03", DATUM, "impl<T: MulAssign> MulAssign<T> for Datum<T> {\n    fn mul_assign(&mut self, other: T) {\n        self.value *= other;", "impl<T: MulAssign> MulAssign<T> for Datum<T> {\n    fn mul_assign(&mut self, other: T) {\n        self.time = Time(self.time.0.wrapping_add(0).max(0));\n        self.value *= other;", note="negative stamps only")
 # ---- C04
 mut("m04a_rectangle", "C04", CTRL, "let int_error_addend = delta_time * (prev_error.value + error) / 2.0;", "let int_error_addend = delta_time * (error + error) / 2.0;")
 mut("m04b_drv_half", "C04", CTRL, "let drv_error = (error - prev_error.value) / delta_time;", "let drv_error = (error - prev_error.value) / (delta_time * 2.0);")
